@@ -3,66 +3,422 @@
 package sr25519
 
 import (
+	stded "crypto/ed25519"
+	"math/big"
+	"strconv"
 	"strings"
 	"testing"
+
+	schnorrkel "github.com/ChainSafe/go-schnorrkel"
+	"github.com/gtank/merlin"
 )
 
-// sr <pk> <msg> <sig> <expected-by-construction: honest|tampered>  →  ok | fail
-// There is no Lean reference for schnorrkel (merlin/STROBE + ristretto255): the expected verdict is
-// known by construction only (honest signature ⇒ ok; single-bit tamper of sig/msg/key ⇒ fail).
-func c29SrRun(line string) string {
-	f := strings.Fields(line)
-	if len(f) != 5 || f[0] != "sr" {
-		return "bad-op"
-	}
-	a := "ok"
-	if err := VerifySignature(vhUnhex(f[1]), vhUnhex(f[3]), vhUnhex(f[2])); err != nil {
-		a = "fail"
-	}
-	b := "fail"
-	if pk, err := NewPublicKey(vhUnhex(f[1])); err == nil {
-		if ok, err := pk.Verify(vhUnhex(f[2]), vhUnhex(f[3])); err == nil && ok {
-			b = "ok"
-		}
-	}
-	if a != b {
-		return "paths-disagree fn=" + a + " method=" + b
-	}
-	return a
+// github.com/gtank/ristretto255 is only an indirect requirement of gossamer: importing it here would make
+// `go test -mod=mod` rewrite /repo/go.mod.  Scalars are therefore math/big numbers mod ℓ, and n·B is obtained
+// through the library as the public key of the secret scalar n.
+
+// Lines of this run (all compared with Lib/SrRef.lean):
+//   mt <app> <clabel> <outlen> {<label> <msg>}*  → challenge bytes of a merlin transcript
+//   rd <32 bytes>                                → err | canonical re-encoding   (ristretto255 decode∘encode
+//                                                  through schnorrkel.NewPublicKey / PublicKey.Encode)
+//   rv <k>                                       → published RFC 9496 encoding of k·B ‖ the library's value
+//   sr <pk> <msg> <sig>                          → <ok|fail> dep=<ok|fail>
+//        first: VerifySignature and PublicKey.Verify (must agree), dep: PublicKey.VerifyDeprecated
+
+var c29SrMultiples = [16]string{
+	"0000000000000000000000000000000000000000000000000000000000000000",
+	"e2f2ae0a6abc4e71a884a961c500515f58e30b6aa582dd8db6a65945e08d2d76",
+	"6a493210f7499cd17fecb510ae0cea23a110e8d5b901f8acadd3095c73a3b919",
+	"94741f5d5d52755ece4f23f044ee27d5d1ea1e2bd196b462166b16152a9d0259",
+	"da80862773358b466ffadfe0b3293ab3d9fd53c5ea6c955358f568322daf6a57",
+	"e882b131016b52c1d3337080187cf768423efccbb517bb495ab812c4160ff44e",
+	"f64746d3c92b13050ed8d80236a7f0007c3b3f962f5ba793d19a601ebb1df403",
+	"44f53520926ec81fbd5a387845beb7df85a96a24ece18738bdcfa6a7822a176d",
+	"903293d8f2287ebe10e2374dc1a53e0bc887e592699f02d077d5263cdd55601c",
+	"02622ace8f7303a31cafc63f8fc48fdc16e1c8c8d234b2f0d6685282a9076031",
+	"20706fd788b2720a1ed2a5dad4952b01f413bcf0e7564de8cdc816689e2db95f",
+	"bce83f8ba5dd2fa572864c24ba1810f9522bc6004afe95877ac73241cafdab42",
+	"e4549ee16b9aa03099ca208c67adafcafa4c3f3e4e5303de6026e3ca8ff84460",
+	"aa52e000df2e16f55fb1032fc33bc42742dad6bd5a8fc0be0167436c5948501f",
+	"46376b80f409b29dc2b5f6f0c52591990896e5716f41477cd30085ab7f10301e",
+	"e0c418f7c8d9c4cdd7395b93ea124f3ad99021bb681dfc3302a9d99a2e53e64e",
 }
 
+// RFC 9496 A.3 invalid encodings
+var c29SrBad = []string{
+	"00ffffffffffffffffffffffffffffffffffffffffffffffffffffffffffffff",
+	"ffffffffffffffffffffffffffffffffffffffffffffffffffffffffffffff7f",
+	"f3ffffffffffffffffffffffffffffffffffffffffffffffffffffffffffff7f",
+	"edffffffffffffffffffffffffffffffffffffffffffffffffffffffffffff7f",
+	"0100000000000000000000000000000000000000000000000000000000000000",
+	"01ffffffffffffffffffffffffffffffffffffffffffffffffffffffffffff7f",
+	"ed57ffd8c914fb201471d1c3d245ce3c746fcbe63a3679d51b6a516ebebe0e20",
+	"c34c4e1826e5d403b78e246e88aa051c36ccf0aafebffe137d148a2bf9104562",
+	"c940e5a4404157cfb1628b108db051a8d439e1a421394ec4ebccb9ec92a8ac78",
+	"47cfc5497c53dc8e61c91d17fd626ffb1c49e2bca94eed052281b510b1117a24",
+	"f1c6165d33367351b0da8f6e4511010c68174a03b6581212c71c0e1d026c3c72",
+	"87260f7a2f12495118360f02c26a470f450dadf34a413d21042b43b9d93e1309",
+	"26948d35ca62e643e26a83177332e6b6afeb9d08e4268b650f1f5bbd8d81d371",
+	"4eac077a713c57b4f4397629a4145982c661f48044dd3f96427d40b147d9742f",
+	"de6a7b00deadc788eb6b6c8d20c0ae96c2f2019078fa604fee5b87d6e989ad7b",
+	"bcab477be20861e01e4a0e295284146a510150d9817763caf1a6f4b422d67042",
+	"2a292df7e32cababbd9de088d1d1abec9fc0440f637ed2fba145094dc14bea08",
+	"f4a9e534fc0d216c44b218fa0c42d99635a0127ee2e53c712f70609649fdff22",
+	"8268436f8c4126196cf64b3c7ddbda90746a378625f9813dd9b8457077256731",
+	"2810e5cbc2cc4d4eece54f61c6f69758e289aa7ab440b3cbeaa21995c2f4232b",
+	"3eb858e78f5a7254d8c9731174a94f76755fd3941c0ac93735c07ba14579630e",
+	"a45fdc55c76448c049a1ab33f17023edfb2be3581e9c7aade8a6125215e04220",
+	"d483fe813c6ba647ebbfd3ec41adca1c6130c2beeee9d9bf065c8d151c5f396e",
+	"8a2e1d30050198c65a54483123960ccc38aef6848e1ec8f5f780e8523769ba32",
+	"32888462f8b486c68ad7dd9610be5192bbeaf3b443951ac1a8118419d9fa097b",
+	"227142501b9d4355ccba290404bde41575b037693cef1f438c47f8fbf35d1165",
+	"5c37cc491da847cfeb9281d407efc41e15144c876e0170b499a96a22ed31e01e",
+	"445425117cb8c90edcbc7c1cc0e74f747f2c1efa5630a967c64f287792a48a4b",
+	"ecffffffffffffffffffffffffffffffffffffffffffffffffffffffffffff7f",
+}
+
+func c29SrVerdict(ok bool) string {
+	if ok {
+		return "ok"
+	}
+	return "fail"
+}
+
+func c29SrRun(line string) string {
+	f := strings.Fields(line)
+	if len(f) == 0 {
+		return "bad-op"
+	}
+	switch {
+	case f[0] == "mt" && len(f) >= 4 && len(f)%2 == 0:
+		n, err := strconv.Atoi(f[3])
+		if err != nil || n <= 0 || n > 4096 {
+			return "bad-op"
+		}
+		t := merlin.NewTranscript(string(vhUnhex(f[1])))
+		for i := 4; i+1 < len(f); i += 2 {
+			t.AppendMessage(vhUnhex(f[i]), vhUnhex(f[i+1]))
+		}
+		return vhHex(t.ExtractBytes(vhUnhex(f[2]), n))
+	case f[0] == "rd" && len(f) == 2:
+		b := vhUnhex(f[1])
+		if len(b) != 32 {
+			return "bad-op"
+		}
+		var in [32]byte
+		copy(in[:], b)
+		pk, err := schnorrkel.NewPublicKey(in)
+		if err != nil {
+			return "err"
+		}
+		out := pk.Encode()
+		return vhHex(out[:])
+	case f[0] == "rv" && len(f) == 2:
+		k, err := strconv.Atoi(f[1])
+		if err != nil || k < 0 || k > 15 {
+			return "bad-op"
+		}
+		return c29SrMultiples[k] + " " + vhHex(c29SrBaseMult(big.NewInt(int64(k))))
+	case f[0] == "sr" && len(f) == 4:
+		pkb, msg, sig := vhUnhex(f[1]), vhUnhex(f[2]), vhUnhex(f[3])
+		a := VerifySignature(pkb, append([]byte{}, sig...), append([]byte{}, msg...)) == nil
+		b, dep := false, false
+		if pk, err := NewPublicKey(pkb); err == nil {
+			ok, err := pk.Verify(append([]byte{}, msg...), append([]byte{}, sig...))
+			b = ok && err == nil
+			ok, err = pk.VerifyDeprecated(append([]byte{}, msg...), append([]byte{}, sig...))
+			dep = ok && err == nil
+		}
+		if a != b {
+			return "paths-disagree fn=" + c29SrVerdict(a) + " method=" + c29SrVerdict(b)
+		}
+		return c29SrVerdict(a) + " dep=" + c29SrVerdict(dep)
+	}
+	return "bad-op"
+}
+
+// ---------------------------------------------------------------------------------------- generators
+
+var (
+	c29SrP, _ = new(big.Int).SetString("7fffffffffffffffffffffffffffffffffffffffffffffffffffffffffffffed", 16)
+	c29SrL, _ = new(big.Int).SetString("7237005577332262213973186563042994240857116359379907606001950938285454250989", 10)
+)
+
+func c29SrLE32(n *big.Int) []byte {
+	b := n.Bytes()
+	out := make([]byte, 32)
+	for i := range b {
+		if i < 32 {
+			out[i] = b[len(b)-1-i]
+		}
+	}
+	return out
+}
+
+func c29SrFromLE(b []byte) *big.Int {
+	r := make([]byte, len(b))
+	for i := range b {
+		r[len(b)-1-i] = b[i]
+	}
+	return new(big.Int).SetBytes(r)
+}
+
+// a uniform scalar mod ℓ
+func c29SrScalar(r *vhRng) *big.Int {
+	n := c29SrFromLE(r.Bytes(64))
+	return n.Mod(n, c29SrL)
+}
+
+// the ristretto255 encoding of n·B (n < ℓ)
+func c29SrBaseMult(n *big.Int) []byte {
+	var b [32]byte
+	copy(b[:], c29SrLE32(n))
+	sk := &schnorrkel.SecretKey{}
+	if err := sk.Decode(b); err != nil {
+		panic(err)
+	}
+	pub, err := sk.Public()
+	if err != nil {
+		panic(err)
+	}
+	out := pub.Encode()
+	return out[:]
+}
+
+// a Schnorr signature made by hand: nonce, transcript and protocol labels are the caller's
+func c29SrSchnorr(x *big.Int, pk []byte, t *merlin.Transcript, lpk, lr, lc string, nonce *big.Int) []byte {
+	t.AppendMessage([]byte("proto-name"), []byte("Schnorr-sig"))
+	t.AppendMessage([]byte(lpk), pk)
+	rb := c29SrBaseMult(nonce)
+	t.AppendMessage([]byte(lr), rb)
+	k := c29SrFromLE(t.ExtractBytes([]byte(lc), 64))
+	k.Mod(k, c29SrL)
+	s := new(big.Int).Mul(x, k)
+	s.Add(s, nonce)
+	s.Mod(s, c29SrL)
+	sig := append(append([]byte{}, rb...), c29SrLE32(s)...)
+	sig[63] |= 128
+	return sig
+}
+
+// boundary lengths of merlin messages: the STROBE rate is 166 bytes, every operation adds 2 framing bytes
+func c29SrLen(r *vhRng) int {
+	switch r.Intn(4) {
+	case 0:
+		return r.Pick(0, 1, 2, 31, 32, 33, 64)
+	case 1:
+		return r.Pick(100, 120, 140, 150, 155, 160, 162, 163, 164, 165, 166, 167, 168, 170)
+	case 2:
+		return r.Pick(320, 328, 329, 330, 331, 332, 333, 334, 335, 496, 497, 498, 499, 500)
+	default:
+		return r.Intn(700)
+	}
+}
+
+func c29SrGenMerlin(r *vhRng) string {
+	labels := []string{"", "dom-sep", "sign-bytes", "proto-name", "sign:pk", "sign:R", "sign:c", "x"}
+	var sb strings.Builder
+	sb.WriteString("mt " + vhHex([]byte(r.PickStr("SigningContext", "substrate", "", "test protocol", "a"))))
+	sb.WriteString(" " + vhHex([]byte(labels[r.Intn(len(labels))])))
+	sb.WriteString(" " + strconv.Itoa(r.Pick(1, 2, 16, 32, 64, 64, 64, 165, 166, 167, 200, 332, 333, 400)))
+	for i, n := 0, r.Intn(5); i < n; i++ {
+		sb.WriteString(" " + vhHex([]byte(labels[r.Intn(len(labels))])) + " " + vhHex(r.Bytes(c29SrLen(r))))
+	}
+	return sb.String()
+}
+
+func c29SrGenDecode(r *vhRng) string {
+	var b []byte
+	switch r.Intn(8) {
+	case 0: // a valid encoding
+		b = c29SrBaseMult(c29SrScalar(r))
+	case 1: // small multiples of the base point
+		b = c29SrBaseMult(big.NewInt(int64(r.Intn(40))))
+	case 2: // RFC 9496 invalid encodings
+		b = vhUnhex(c29SrBad[r.Intn(len(c29SrBad))])
+	case 3: // p + j: non-canonical field encodings (j < 19), and the values just below p
+		b = c29SrLE32(new(big.Int).Add(c29SrP, big.NewInt(int64(r.Intn(19)))))
+		if r.Chance(1, 3) {
+			b = c29SrLE32(new(big.Int).Sub(c29SrP, big.NewInt(int64(1+r.Intn(20)))))
+		}
+	case 4: // the negation p − e of a valid encoding (odd), or bit 255 set
+		b = c29SrBaseMult(c29SrScalar(r))
+		if r.Bool() {
+			b = c29SrLE32(new(big.Int).Sub(c29SrP, c29SrFromLE(b)))
+		} else {
+			b[31] |= 0x80
+		}
+	case 5: // small values
+		b = make([]byte, 32)
+		b[0] = byte(r.Intn(256))
+		b[1] = byte(r.Pick(0, 0, 0, 1, 255))
+	default: // random even field elements: about half of them decode
+		b = r.Bytes(32)
+		b[0] &= 0xfe
+		b[31] &= 0x7f
+	}
+	return "rd " + vhHex(b)
+}
+
+func (r *vhRng) PickStr(xs ...string) string { return xs[r.Intn(len(xs))] }
+
 func c29SrGen(r *vhRng) string {
+	switch r.Intn(10) {
+	case 0, 1:
+		return c29SrGenMerlin(r)
+	case 2:
+		return c29SrGenDecode(r)
+	case 3:
+		if r.Chance(1, 4) {
+			return "rv " + strconv.Itoa(r.Intn(16))
+		}
+	}
+	return c29SrGenSig(r)
+}
+
+func c29SrGenSig(r *vhRng) string {
 	kp, err := NewKeypairFromSeed(r.Bytes(32))
 	if err != nil {
 		panic(err)
 	}
-	msg := r.Bytes(r.Pick(0, 1, 32, 64, 100))
-	sig, err := kp.Sign(msg)
-	if err != nil {
-		panic(err)
-	}
+	xb := kp.private.key.Encode()
+	x := c29SrFromLE(xb[:])
+	msg := r.Bytes(r.Pick(0, 1, 32, 64, 100, 150, 166, 200))
 	pk := kp.Public().Encode()
-	kind := "honest"
-	switch r.Intn(6) {
-	case 0:
+	current := func(m []byte) *merlin.Transcript { return schnorrkel.NewSigningContext(SigningContext, m) }
+	goLegacy := func(m []byte) *merlin.Transcript {
+		t := merlin.NewTranscript(string(SigningContext))
+		t.AppendMessage([]byte("sign-bytes"), m)
+		return t
+	}
+	honest := func() []byte {
+		return c29SrSchnorr(x, pk, current(msg), "sign:pk", "sign:R", "sign:c", c29SrScalar(r))
+	}
+	var sig []byte
+	switch r.Intn(20) {
+	case 0: // the library's own signer (random nonce)
+		sig, err = kp.Sign(msg)
+		if err != nil {
+			panic(err)
+		}
+	case 1, 2:
+		sig = honest()
+	case 3: // marker bit cleared on an honest signature
+		sig = honest()
+		sig[63] &= 0x7f
+	case 4: // signed on merlin("substrate")+sign-bytes with the CURRENT labels (what gossamer's
+		// VerifyDeprecated tries second); marker set or clear
+		sig = c29SrSchnorr(x, pk, goLegacy(msg), "sign:pk", "sign:R", "sign:c", c29SrScalar(r))
+		if r.Bool() {
+			sig[63] &= 0x7f
+		}
+	case 5: // a genuine schnorrkel 0.1.1 signature (labels pk / no / ""), unmarked as 0.1.1 produced them, or marked
+		sig = c29SrSchnorr(x, pk, goLegacy(msg), "pk", "no", "", c29SrScalar(r))
+		if r.Chance(2, 3) {
+			sig[63] &= 0x7f
+		}
+	case 6: // one flipped bit in the signature
+		sig = honest()
 		sig[r.Intn(64)] ^= 1 << uint(r.Intn(8))
-		kind = "tampered"
-	case 1:
+	case 7: // one flipped bit in the message
+		sig = honest()
 		if len(msg) == 0 {
 			msg = []byte{1}
 		} else {
 			msg[r.Intn(len(msg))] ^= 1 << uint(r.Intn(8))
 		}
-		kind = "tampered"
-	case 2:
-		sig = sig[:r.Intn(64)]
-		kind = "tampered"
-	case 3:
-		other, _ := NewKeypairFromSeed(r.Bytes(32))
-		pk = other.Public().Encode()
-		kind = "tampered"
+	case 8: // other key / one flipped bit in the key
+		sig = honest()
+		if r.Bool() {
+			other, _ := NewKeypairFromSeed(r.Bytes(32))
+			pk = other.Public().Encode()
+		} else {
+			pk = append([]byte{}, pk...)
+			pk[r.Intn(32)] ^= 1 << uint(r.Intn(8))
+		}
+	case 9: // s + j·ℓ: same residue, non-canonical scalar (fits below 2^255 for j ≤ 6)
+		sig = honest()
+		s := c29SrFromLE(sig[32:])
+		s.SetBit(s, 255, 0)
+		s.Add(s, new(big.Int).Mul(c29SrL, big.NewInt(int64(1+r.Intn(6)))))
+		copy(sig[32:], c29SrLE32(s))
+		if r.Chance(3, 4) {
+			sig[63] |= 0x80
+		}
+	case 10: // nonce 0: R is the identity (encoding 00…00), a valid signature; then non-canonical / marked R
+		sig = c29SrSchnorr(x, pk, current(msg), "sign:pk", "sign:R", "sign:c", big.NewInt(0))
+		switch r.Intn(3) {
+		case 0:
+		case 1:
+			copy(sig[:32], c29SrLE32(c29SrP)) // p ≡ 0, non-canonical
+		default:
+			sig[31] |= 0x80
+		}
+	case 11: // R replaced by an invalid encoding / by −R / by another valid point
+		sig = honest()
+		switch r.Intn(3) {
+		case 0:
+			copy(sig[:32], vhUnhex(c29SrBad[r.Intn(len(c29SrBad))]))
+		case 1:
+			copy(sig[:32], c29SrLE32(new(big.Int).Sub(c29SrP, c29SrFromLE(sig[:32]))))
+		default:
+			copy(sig[:32], c29SrBaseMult(c29SrScalar(r)))
+		}
+	case 12: // public key replaced by an invalid / non-canonical encoding
+		sig = honest()
+		if r.Bool() {
+			pk = vhUnhex(c29SrBad[r.Intn(len(c29SrBad))])
+		} else {
+			pk = c29SrLE32(new(big.Int).Add(c29SrP, big.NewInt(int64(r.Intn(19)))))
+		}
+	case 13, 14: // identity public key (00…00): R = s·B satisfies the equation whatever the challenge
+		pk = make([]byte, 32)
+		n := c29SrScalar(r)
+		sig = append(c29SrBaseMult(n), c29SrLE32(n)...)
+		switch r.Intn(5) {
+		case 0, 1:
+			sig[63] |= 0x80
+		case 2: // unmarked
+		case 3: // wrong s
+			sig[63] |= 0x80
+			sig[32] ^= 1
+		default: // an honest signature of another key
+			sig = honest()
+		}
+	case 15: // wrong length
+		sig = honest()
+		switch r.Intn(4) {
+		case 0:
+			sig = sig[:r.Intn(64)]
+		case 1:
+			sig = append(sig, byte(r.Intn(256)))
+		case 2:
+			pk = pk[:31]
+		default:
+			pk = append(append([]byte{}, pk...), 0)
+		}
+	case 16: // wrong signing context
+		ctx := [][]byte{{}, []byte("substratf"), []byte("Substrate"), []byte("substrate "), []byte("substrat")}[r.Intn(5)]
+		sig = c29SrSchnorr(x, pk, schnorrkel.NewSigningContext(ctx, msg), "sign:pk", "sign:R", "sign:c", c29SrScalar(r))
+	case 17: // random bytes, marked or not
+		sig = r.Bytes(64)
+		if r.Bool() {
+			sig[63] |= 0x80
+		}
+	case 18: // an ed25519 signature under the same 32 key bytes
+		edk := stded.NewKeyFromSeed(r.Bytes(32))
+		pk = []byte(edk.Public().(stded.PublicKey))
+		sig = stded.Sign(edk, msg)
+		if r.Bool() {
+			sig[63] |= 0x80
+		}
+	default: // s = 0 / s = ℓ−1 / s = ℓ with an honest R
+		sig = honest()
+		s := []*big.Int{big.NewInt(0), new(big.Int).Sub(c29SrL, big.NewInt(1)), c29SrL}[r.Intn(3)]
+		copy(sig[32:], c29SrLE32(s))
+		sig[63] |= 0x80
 	}
-	return "sr " + vhHex(pk) + " " + vhHex(msg) + " " + vhHex(sig) + " " + kind
+	return "sr " + vhHex(pk) + " " + vhHex(msg) + " " + vhHex(sig)
 }
 
 func TestVerifC29Sr(t *testing.T) { vhMain(t, c29SrGen, c29SrRun) }
